@@ -657,7 +657,7 @@ pub fn run_slice_history<A: Atomicity>(rng: &mut Rng, nops: usize, st: &mut Stat
                 st.count("Bytes:op:extend/from_iter");
             },
             4 => {
-                let k = rng.below(40) as u32;
+                let k = if rng.chance(1, 2) { rng.below(5) } else { rng.below(40) } as u32;
                 let v = (rng.next_u64() & 0xff) as u8;
                 b.extend_with_byte(k, v);
                 bm.extend(std::iter::repeat(v).take(k as usize));
@@ -723,7 +723,45 @@ pub fn run_slice_history<A: Atomicity>(rng: &mut Rng, nops: usize, st: &mut Stat
                 st.count("UTF8:op:String conversions");
             },
             _ => {
-                // reach "owned but short" states: shrink an owned buffer below the inline limit
+                // reach "heap-backed but short" states (an owned or shared buffer holding at most 8
+                // bytes): reserve on a short tendril, clear of an owned one, with_capacity, a
+                // SendTendril round trip. Growth from there must keep the content.
+                match rng.below(8) {
+                    0 => {
+                        b.reserve(rng.range(1, 40) as u32);
+                        st.count("Bytes:op:reserve");
+                    },
+                    1 => {
+                        b.clear();
+                        bm.clear();
+                        st.count("Bytes:op:clear");
+                    },
+                    2 => {
+                        let old = std::mem::replace(&mut b, Tendril::new());
+                        b = old.into_send().into();
+                        st.count("Bytes:op:send-round-trip");
+                    },
+                    3 => {
+                        b = Tendril::with_capacity(rng.range(0, 40) as u32);
+                        bm.clear();
+                        st.count("Bytes:op:with_capacity");
+                    },
+                    4 => {
+                        s.reserve(rng.range(1, 40) as u32);
+                        if rng.chance(1, 2) {
+                            let old = std::mem::replace(&mut s, Tendril::new());
+                            s = old.into_send().into();
+                        }
+                        st.count("UTF8:op:reserve/send-round-trip");
+                    },
+                    _ => {},
+                }
+                if &b[..] != &bm[..] {
+                    return Err((format!("#{opno}"), "content changed by reserve / clear / with_capacity / SendTendril round trip".into()));
+                }
+                if bm.len() <= 8 && repr_of(&b) != "inline" {
+                    st.count("Bytes:heap-backed-with-at-most-8-bytes");
+                }
                 if bm.len() > 12 && rng.chance(1, 3) {
                     let keep = rng.below(8);
                     b.pop_back((bm.len() - keep) as u32);
